@@ -15,6 +15,10 @@ from pv.values import (VMap, V, VInt, VBool, VStr, VNONE, VNoneT, VTuple, VRef, 
                        OutOfSubset, fresh, fresh_name, kind_of, I, B, S)
 
 
+# external functions whose result is an arbitrary value of a kind (no other effect on the modelled state)
+EXTERNAL = {'time.time': 'int'}
+
+
 class Outcome:
     __slots__ = ('kind', 'st', 'val', 'exc', 'site')
 
@@ -83,7 +87,7 @@ class Verifier(Engine):
             raise OutOfSubset('star arguments')
         fv = self.ev.ev(st, f)
         # generator expression arguments stay syntactic
-        args = [self.ev.ev(st, a) for a in e.args]
+        args = [self.ev.ev(st, a) if not isinstance(a, ast.GeneratorExp) else VFn('genexp', node=a, env={}) for a in e.args]
         kwargs = {k.arg: self.ev.ev(st, k.value) for k in e.keywords}
         return self.call_value(st, fv, args, kwargs, e)
 
@@ -129,6 +133,10 @@ class Verifier(Engine):
             o = fv.obj
             if inspect.isclass(o):
                 return self.construct(st, o, args, kwargs)
+            ext = '%s.%s' % (getattr(o, '__module__', ''), getattr(o, '__name__', ''))
+            if ext in EXTERNAL:
+                self.havocked.append('ext:' + ext)
+                return fresh(EXTERNAL[ext], ext.replace('.', '_'))
             raise OutOfSubset('call of constant %r' % (o,))
         raise OutOfSubset('call of %s' % kind_of(fv))
 
@@ -195,6 +203,10 @@ class Verifier(Engine):
             return self.new_list(st, [])
         if name in ('any', 'all') and e is not None and isinstance(e.args[0], ast.GeneratorExp):
             return self.quant_genexp(st, name, e.args[0])
+        if name == 'sum' and e is not None and isinstance(e.args[0], ast.GeneratorExp):
+            r = fresh('int', 'sum')          # a sum of lengths: some non-negative integer
+            st.assume(r.t >= 0)
+            return r
         raise OutOfSubset('builtin %s' % name)
 
     def quant_genexp(self, st, name, g):
@@ -310,6 +322,8 @@ class Verifier(Engine):
         """View an argument value as the kind the callee's contract declares."""
         if kind is None or kind == 'any':
             return v
+        if isinstance(v, VOpt) and not kind.startswith('opt:'):
+            return self.coerce(v.val, kind, st)       # the path condition decides whether it can be None here
         if kind.startswith('ref') and isinstance(v, VRef):
             want = kind[4:] or None
             if want and (v.cls is None or not classes.is_subclass(v.cls, want)):
